@@ -774,8 +774,13 @@ impl<'a> Parser<'a> {
             self.parse_re(ix, depth)?
         };
         next = self.check_for_close_paren(next)?;
-        let (end, child) = self.parse_re(next, depth)?;
-        if end == next {
+        // The true branch is everything up to the first `|` at this nesting level. It must not be
+        // parsed together with the false branch as one alternation, because an alternation
+        // inside a non-capturing group, as in `(?(1)(?:a|b))`, would then be taken apart.
+        let (end, if_true) = self.parse_branch(next, depth)?;
+        let end = self.optional_whitespace(end)?;
+        let has_false_branch = self.re[end..].starts_with('|');
+        if end == next && !has_false_branch {
             // Backreference validity checker
             if let Expr::Backref(group) = condition {
                 let after = self.check_for_close_paren(end)?;
@@ -789,22 +794,12 @@ impl<'a> Parser<'a> {
                 ));
             }
         }
-        let if_true: Expr;
-        let mut if_false: Expr = Expr::Empty;
-        if let Expr::Alt(mut alternatives) = child {
-            // the truth branch will be the first alternative
-            if_true = alternatives.remove(0);
-            // if there is only one alternative left, take it out the Expr::Alt
-            if alternatives.len() == 1 {
-                if_false = alternatives.pop().expect("expected 2 alternatives");
-            } else {
-                // otherwise the remaining branches become the false branch
-                if_false = Expr::Alt(alternatives);
-            }
+        // the remaining branches (if any) become the false branch
+        let (end, if_false) = if has_false_branch {
+            self.parse_re(end + 1, depth)?
         } else {
-            // there is only one branch - the truth branch. i.e. "if" without "else"
-            if_true = child;
-        }
+            (end, Expr::Empty)
+        };
         let inner_condition = if let Expr::Backref(group) = condition {
             Expr::BackrefExistsCondition(group)
         } else {
